@@ -127,7 +127,7 @@ func (a *agg) write(sc *scratch, cfg *propCfg, tier string, seed uint64, wall, b
 			break
 		}
 		rs := runJob(sc, cfg, job{prop: cfg.ID, seed: seed, run: s.Run, count: 1, trace: true, opt: os.Getenv("VERIF_OPT")})
-		tr := rs[0].Trace
+		tr := resolveSites(sc, rs[0].Trace)
 		if len(tr) > 60 {
 			tr = append(append([]string{}, tr[:40]...), append([]string{fmt.Sprintf("... (%d lines omitted)", len(tr)-60)}, tr[len(tr)-20:]...)...)
 		}
